@@ -25,7 +25,7 @@ RULE = ('Hypothesis draws a datatype tree T (all ten kinds at every position, li
 ASSUMPTIONS = ['refmodel.py is the reference for the SECoP value sets and the documented leniencies',
                'scaled-integer grid indices are bounded by 2^50 so that index arithmetic is exact in doubles']
 
-N_EXAMPLES = {'quick': 90, 'thorough': 1500}
+N_EXAMPLES = {'quick': 250, 'thorough': 3000}
 
 
 def shards(tier, seed):
